@@ -68,3 +68,5 @@ Lemma ex_build2_ok : build_ok 0 1 (1#2) ["S"; "I"; "R"] ["I"] ex_ops = Some ex_m
 Proof. vm_compute. reflexivity. Qed.
 
 Definition env_of_ex (l : list (string * Q)) : env QcOps := env_of QcOps l.
+
+Definition dflow_ex : flow := {| f_name := ""; f_kind := KTrans; f_src := None; f_dst := None; f_param := EConst 0; f_adjs := [] |}.
